@@ -258,7 +258,12 @@ func augBase() (a, as *ir.Mod) {
 	a.Body = []*ir.S{
 		ir.Group("ga", ir.Leaf("gal", "string"), ir.Cont("gac", ir.Leaf("deep", "string")), ir.Cont("gempty")),
 		ir.Cont("top", ir.Cont("c", ir.Leaf("l", "string")), ir.N("list", "li", ir.Leaf("v", "string")),
-			ir.N("choice", "ch", ir.N("case", "ka", ir.Leaf("kk", "string")), ir.Leaf("s", "string")),
+			// shorthand members that hold a leaf of their own name: a path that spells the implied case
+			// (.../ch/sc/sc) reads one level too deep as long as the implied cases are not there
+			ir.N("choice", "ch", ir.N("case", "ka", ir.Leaf("kk", "string")), ir.Leaf("s", "string"),
+				ir.Cont("sc", ir.Leaf("sc", "string"), ir.Leaf("o", "string")), ir.N("list", "sl", ir.Leaf("sl", "string"))),
+			// ... and one that holds a container of its own name (targets: AugTargetsKnown)
+			ir.N("choice", "chm", ir.Cont("sm", ir.Cont("sm", ir.Leaf("x", "string")), ir.Leaf("y", "string"))),
 			ir.Leaf("tl", "string"), &ir.S{Kind: "leaf-list", Name: "tll", Type: "string"}, ir.Cont("u", ir.Uses("ga")), ir.Cont("u2", ir.Uses("ga")), ir.Cont("empty")),
 		ir.N("rpc", "r"),
 		ir.N("rpc", "r2", ir.N("input", "", ir.Leaf("i", "string"))),
@@ -269,7 +274,29 @@ func augBase() (a, as *ir.Mod) {
 }
 
 var AugTargets = []string{"top", "top/c", "top/li", "top/ch", "top/ch/ka", "top/tl", "top/tll", "r/input", "r/output", "r2/input", "r2/output", "n", "top/nope",
-	"top/c/e", "top/e", "top/u", "top/u/gac", "subc", "top/ch/kz", "r2/input/e", "top/c/e/h", "top/u/gempty", "top/empty"}
+	"top/c/e", "top/e", "top/u", "top/u/gac", "subc", "top/ch/kz", "r2/input/e", "top/c/e/h", "top/u/gempty", "top/empty",
+	// through the implied case of a shorthand member, spelled as RFC 7950 7.9.2 requires: the member container, the
+	// member list, the leaf inside the member (cannot have children), the container inside the member of chm
+	// the member of chm, which holds a container of its own name (the library used to graft into that
+	// inner container; repaired, f8c6f7c)
+	"top/ch/sc/sc", "top/ch/sl/sl", "top/ch/sc/sc/sc", "top/chm/sm/sm/sm", "top/chm/sm/sm"}
+
+// AugTargetsKnown: targets on which the library is known to fail (none at present); only C07 uses them.
+var AugTargetsKnown = []string{}
+
+// AUGKnown enumerates the single augments of AugTargetsKnown.
+func AUGKnown(f func(augs []AugSpec)) {
+	for _, t := range AugTargetsKnown {
+		for b := 0; b < AugBodies; b++ {
+			if !augFits(t, b) {
+				continue
+			}
+			for _, m := range []string{"a", "as", "b", "c"} {
+				f([]AugSpec{{Mod: m, Target: t, Body: b}})
+			}
+		}
+	}
+}
 
 func augBody(i int) []*ir.S {
 	switch i {
@@ -371,7 +398,7 @@ func AUG(tier string, f func(augs []AugSpec)) {
 			f(withPfx([]AugSpec{a}, ps))
 		}
 	}
-	stride := 7
+	stride := 11
 	if tier == "thorough" {
 		stride = 2
 	}
